@@ -39,7 +39,7 @@ for pid in claimed:
         level_claimed=dict(category=info.get('level', 'model_checking'),
                            text=info.get('claim', 'Bounded model checking (CBMC/SAT) of the real functions lowered from /repo at check time: '
                                          + '; '.join(group_descs(hs) or [info.get('desc', '')]) + '. Holds for every value of the symbolic inputs within the stated bounds (COVERAGE.md lists domain, oracle and bounds of every query); nothing is claimed outside them.'),
-                           design_ref='DESIGN.md section 4 ' + pid),
+                           design_ref='DESIGN.md section 4 ' + pid + ' (plan), section 8.5 and COVERAGE.md (as built)'),
         level_note='Trusted: clang-14 -O1 lowering, engine/ll2c.py (IR->C), models in /verif/models (listed per harness in the evidence), CBMC 6.11. '
                    'Outside the claim: ' + info.get('outside', ''),
         technique=info.get('technique', 'bounded symbolic execution of clang-lowered real code (own LLVM-IR->C translator) decided by CBMC/SAT; counterexamples replayed natively')))
